@@ -1,1 +1,1545 @@
-//! cidsim — engine skeleton (see DESIGN.md §4/§5).
+//! cidsim — connection-ID issuing, use, retirement and routing (C14).
+//!
+//! One case = 1..3 connection slots sharing one real `QuicRouter`. Each connection is the bundle the
+//! connection builder of qconnection creates: `QuicRouter::registry_on_issuing_scid` → `gen_unique_cid`
+//! (initial scid) → optional `router.insert(odcid)` (server) → `ArcLocalCids::new(scid, registry)` and
+//! `ArcRemoteCids::new(limit, sink)`; paths are `apply_dcid` cells. The far endpoint is a model: it issues
+//! NEW_CONNECTION_ID frames to us and retires the ids we issue. All four frame streams (both kinds, both
+//! directions) pass through channels whose delivery order, duplication and delay the op list decides.
+//!
+//! The reference models are plain sets written from RFC 9000 §5.1, §19.15, §19.16.
+use std::{
+    collections::{BTreeMap, BTreeSet, HashMap},
+    future::Future,
+    pin::Pin,
+    sync::{
+        Arc, Mutex,
+        atomic::{AtomicU64, Ordering},
+    },
+    task::Poll,
+};
+
+use bytes::BytesMut;
+use qbase::{
+    cid::{ArcCidCell, ArcLocalCids, ArcRemoteCids, BorrowedCid, ConnectionId, GenUniqueCid},
+    error::ErrorKind,
+    frame::{
+        NewConnectionIdFrame, RetireConnectionIdFrame,
+        io::{ReceiveFrame, SendFrame},
+    },
+    net::{
+        route::{Link, Pathway},
+        tx::{ArcSendWaker, Signals},
+    },
+    packet::{DataHeader, DataPacket, Packet, SpinBit, header::OneRttHeader},
+    varint::VarInt,
+};
+use qinterface::{
+    bind_uri::BindUri,
+    component::route::{QuicRouter, QuicRouterEntry, QuicRouterRegistry, RcvdPacketQueue, Way},
+};
+use serde::{Deserialize, Serialize};
+use simcore::{Engine, Outcome, Rng, Tier, TraceHash, wake::Task};
+
+/// sequence numbers stay below this bound (huge sequence numbers are property C04)
+const SEQ_BOUND: usize = 60;
+const MAX_PATHS: usize = 6;
+
+#[derive(Clone, Debug, Serialize, Deserialize, PartialEq)]
+pub enum Op {
+    /// build a connection in an empty slot exactly as `ConnectionFoundation::with_cids` + `PendingConnection::run`
+    Create {
+        slot: u8,
+        server: bool,
+        /// our active_connection_id_limit (bounds the peer's ids we store)
+        local_limit: u8,
+        /// the peer's active_connection_id_limit (bounds the ids we issue)
+        peer_limit: u8,
+        /// server only: index into a tiny pool of original destination connection ids (reuse after drop)
+        odcid: u8,
+        /// paths created before the handshake (each `apply_dcid`)
+        paths: u8,
+        /// peer's Retire Prior To policy: 0 never raised, 1 lowest unretired sequence (what LocalCids does), 2 raised by `PeerIssue.bump`
+        rpt_mode: u8,
+        /// peer issues a replacement as soon as a RETIRE_CONNECTION_ID reaches it
+        auto_replace: bool,
+    },
+    /// first Initial packet processed: `apply_initial_dcid(peer scid, cell of path)`
+    Handshake { slot: u8, path: u8 },
+    /// TLS finished: `ArcLocalCids::set_limit(peer_limit)`
+    SetLimit { slot: u8 },
+    /// the peer issues its next NEW_CONNECTION_ID; `bump` (mode 2) raises Retire Prior To into (current, seq];
+    /// `byz`: issue even if that exceeds our limit
+    PeerIssue { slot: u8, bump: u8, byz: bool },
+    /// deliver item `idx % len` of the peer→us NEW_CONNECTION_ID channel (`dup`: a copy stays in the channel)
+    DeliverNewCid { slot: u8, idx: u8, dup: bool },
+    /// one of our RETIRE_CONNECTION_ID frames reaches the peer
+    PeerRecvRetire { slot: u8, idx: u8, dup: bool },
+    /// one of our NEW_CONNECTION_ID frames reaches the peer
+    PeerRecvNewCid { slot: u8, idx: u8, dup: bool },
+    /// the peer retires one of our ids it knows (`byz` = 0) or the never-issued sequence next+byz-1
+    PeerRetire { slot: u8, sel: u8, byz: u8 },
+    /// deliver item `idx % len` of the peer→us RETIRE_CONNECTION_ID channel
+    DeliverRetire { slot: u8, idx: u8, dup: bool },
+    NewPath { slot: u8 },
+    /// next step of the path's send loop: idle → `borrow_cid` (kept if `hold`, else dropped at once);
+    /// borrowed → drop the borrow; blocked → poll `tx_waker.wait_for(CONNECTION_ID)`
+    PathStep { slot: u8, path: u8, hold: bool },
+    /// `ArcCidCell::retire`
+    PathRetire { slot: u8, path: u8 },
+    /// the peer reuses a known sequence number for a different connection id (RFC: MAY be rejected); ends judging of the connection
+    ConflictCid { slot: u8, sel: u8 },
+    /// `ArcLocalCids::clear` (termination), the connection object is dropped later
+    ClearLocal { slot: u8 },
+    /// drop every part of the connection
+    Drop { slot: u8 },
+    /// look every id ever issued on the router up
+    RouteAudit,
+}
+
+#[derive(Clone, Debug, Serialize, Deserialize)]
+pub struct Case {
+    pub slots: u8,
+    pub ops: Vec<Op>,
+}
+
+pub struct CidSim;
+
+// ---------------------------------------------------------------------------------------------
+// frame sink handed to the real code (what ArcReliableFrameDeque is in qconnection)
+
+#[derive(Default)]
+struct SinkInner {
+    new_cid: Vec<NewConnectionIdFrame>,
+    retire: Vec<RetireConnectionIdFrame>,
+}
+
+#[derive(Clone, Default)]
+struct Sink(Arc<Mutex<SinkInner>>);
+
+impl SendFrame<NewConnectionIdFrame> for Sink {
+    fn send_frame<I: IntoIterator<Item = NewConnectionIdFrame>>(&self, iter: I) {
+        self.0.lock().unwrap().new_cid.extend(iter);
+    }
+}
+
+impl SendFrame<RetireConnectionIdFrame> for Sink {
+    fn send_frame<I: IntoIterator<Item = RetireConnectionIdFrame>>(&self, iter: I) {
+        self.0.lock().unwrap().retire.extend(iter);
+    }
+}
+
+type Registry = QuicRouterRegistry<Sink>;
+type Local = ArcLocalCids<Registry>;
+type Remote = ArcRemoteCids<Sink>;
+type Cell = ArcCidCell<Sink>;
+
+#[derive(Clone, Copy, PartialEq, Debug)]
+enum PState {
+    Idle,
+    Borrowed,
+    /// `borrow_cid` returned `Err(CONNECTION_ID)`; the wait future was created but not polled yet
+    NeedWait,
+    Waiting,
+}
+
+struct PathActor {
+    // field order matters: the borrow must drop before the cell handle it points into
+    borrow: Option<BorrowedCid<'static, Sink>>,
+    wait: Option<Pin<Box<dyn Future<Output = ()>>>>,
+    cell: Cell,
+    waker: ArcSendWaker,
+    task: Task,
+    state: PState,
+    retired: bool,
+    /// sequence number of the id the last successful borrow returned
+    current: Option<u64>,
+}
+
+fn borrow_static(cell: &Cell, w: ArcSendWaker) -> Result<Option<BorrowedCid<'static, Sink>>, Signals> {
+    // SAFETY: `BorrowedCid` holds a reference to the mutex inside the cell's `Arc` allocation. `PathActor` keeps
+    // a clone of that `Arc` in `cell` and declares `borrow` before it, so the borrow is always dropped first and
+    // the reference never dangles; moving the `PathActor` does not move the allocation.
+    unsafe {
+        std::mem::transmute::<Result<Option<BorrowedCid<'_, Sink>>, Signals>, Result<Option<BorrowedCid<'static, Sink>>, Signals>>(
+            cell.borrow_cid(w),
+        )
+    }
+}
+
+struct Conn {
+    // real parts -----------------------------------------------------------------------------
+    paths: Vec<PathActor>,
+    remote: Remote,
+    local: Option<Local>,
+    /// second handle, as the clones of `cid_registry.local` held by spaces / bursts
+    local2: Option<Local>,
+    odcid_entry: Option<QuicRouterEntry>,
+    queue: Arc<RcvdPacketQueue>,
+    sink: Sink,
+    // configuration --------------------------------------------------------------------------
+    conn_id: u32,
+    odcid: Option<ConnectionId>,
+    local_limit: u64,
+    peer_limit: u64,
+    rpt_mode: u8,
+    auto_replace: bool,
+    handshaken: bool,
+    limit_set: bool,
+    cleared: bool,
+    /// a connection error was returned or was due: the real stack would be closing; nothing more is judged or fed
+    dead: bool,
+    // local-side reference: ids we issued (index = sequence number) -------------------------------
+    issued: Vec<(ConnectionId, bool)>,
+    // channels ---------------------------------------------------------------------------------
+    n_in: Vec<(NewConnectionIdFrame, u64)>,
+    r_in: Vec<(u64, u64)>,
+    n_out: Vec<(NewConnectionIdFrame, u64)>,
+    r_out: Vec<(u64, u64)>,
+    // peer model, consumer of our ids ------------------------------------------------------------
+    peer_known: BTreeSet<u64>,
+    peer_retired_sent: BTreeSet<u64>,
+    // peer model, issuer of its ids ---------------------------------------------------------------
+    p_issued: Vec<ConnectionId>,
+    p_rpt: u64,
+    p_retired_rcvd: BTreeSet<u64>,
+    // remote-side reference: what we received / emitted ----------------------------------------------
+    received: BTreeMap<u64, ConnectionId>,
+    cid2seq: HashMap<ConnectionId, u64>,
+    rpt_max: u64,
+    retired_emitted: BTreeSet<u64>,
+}
+
+struct Grave {
+    conn_id: u32,
+    ids: Vec<ConnectionId>,
+    odcid: Option<ConnectionId>,
+    queue: Arc<RcvdPacketQueue>,
+}
+
+struct Cx {
+    out: Outcome,
+    th: TraceHash,
+    step: u64,
+    faults: u64,
+    progress: u64,
+}
+
+impl Cx {
+    fn fault(&mut self, k: &'static str) {
+        self.out.stats.bump(k);
+        self.faults += 1;
+    }
+    fn probe(&mut self, k: &'static str) {
+        self.out.stats.bump(k);
+    }
+    fn violate(&mut self, clause: &str, site: &str, detail: String) {
+        let step = self.step;
+        self.out.violate(clause, site, detail, step);
+    }
+}
+
+fn kind_name(k: ErrorKind) -> &'static str {
+    match k {
+        ErrorKind::ConnectionIdLimit => "ConnectionIdLimit",
+        ErrorKind::ProtocolViolation => "ProtocolViolation",
+        ErrorKind::FrameEncoding => "FrameEncoding",
+        ErrorKind::TransportParameter => "TransportParameter",
+        ErrorKind::Internal => "Internal",
+        _ => "other",
+    }
+}
+
+fn peer_cid(conn_id: u32, seq: u64, variant: u8) -> ConnectionId {
+    // first byte has the top bit clear: never equal to an id from `random_gen_with_mark(8, 0x80, 0x7f)`
+    ConnectionId::from_slice(&[0x20, (conn_id >> 8) as u8, conn_id as u8, seq as u8, 0xa5, 0x5a, 0x01, variant])
+}
+
+fn odcid_of(pool_idx: u8) -> ConnectionId {
+    ConnectionId::from_slice(&[0x10, 0xd0, 0xc1, 0xd0, 0, 0, 0, pool_idx])
+}
+
+enum RetCtx {
+    /// frames emitted by anything but `ArcCidCell::retire`: only ids below the largest Retire Prior To may go
+    Generic,
+    /// the borrow was dropped
+    Release,
+    PathRetire,
+}
+
+impl Conn {
+    fn live_paths(&self) -> usize {
+        self.paths.iter().filter(|p| !p.retired).count()
+    }
+
+    fn issued_live(&self) -> usize {
+        self.issued.iter().filter(|(_, l)| *l).count()
+    }
+
+    /// Move what the real code emitted into the outgoing channels, judging every frame on the way.
+    /// `expect_new`: `Some(n)` = exactly n NEW_CONNECTION_ID frames are due (a live id was retired).
+    fn pump(&mut self, cx: &mut Cx, expect_new: Option<usize>, rctx: RetCtx) {
+        let (news, rets) = {
+            let mut s = self.sink.0.lock().unwrap();
+            (std::mem::take(&mut s.new_cid), std::mem::take(&mut s.retire))
+        };
+        if self.dead {
+            return;
+        }
+        // ---- local side -----------------------------------------------------------------------
+        for f in &news {
+            let want = self.issued.len() as u64;
+            if f.sequence() != want {
+                cx.violate("local-seq-gap", "", format!("NEW_CONNECTION_ID carries sequence {} where {want} is next", f.sequence()));
+            }
+            if f.retire_prior_to() > f.sequence() {
+                cx.violate("local-seq-gap", "retire-prior-to", format!("issued sequence {} with retire_prior_to {}", f.sequence(), f.retire_prior_to()));
+            }
+            self.issued.push((*f.connection_id(), true));
+            self.n_out.push((*f, cx.step));
+            cx.th.add(0x11 << 48 | f.sequence() << 8 | f.retire_prior_to());
+        }
+        if let Some(n) = expect_new {
+            if news.len() != n {
+                let site = if news.is_empty() { "" } else { "multiple" };
+                cx.violate("retire-not-replaced", site, format!("retiring a live id produced {} NEW_CONNECTION_ID frames, expected {n}", news.len()));
+            }
+        }
+        let limit_eff = if self.limit_set { self.peer_limit } else { 2 };
+        let live = self.issued_live() as u64;
+        if live > limit_eff {
+            cx.violate("local-over-limit", "", format!("{live} unretired ids outstanding, peer's limit is {limit_eff}"));
+        }
+        if live == limit_eff && !news.is_empty() {
+            cx.probe("probe.local_at_limit");
+        }
+        // ---- remote side ----------------------------------------------------------------------
+        if !rets.is_empty() {
+            match rctx {
+                RetCtx::Release => cx.probe("probe.retire_delayed_until_release"),
+                RetCtx::PathRetire if rets.len() > 1 => cx.probe("probe.path_retire_multi"),
+                _ => {}
+            }
+        }
+        for f in &rets {
+            let seq = f.sequence();
+            cx.th.add(0x12 << 48 | seq);
+            if self.retired_emitted.contains(&seq) {
+                cx.violate("retire-frame-count", "duplicate", format!("second RETIRE_CONNECTION_ID for sequence {seq}"));
+            }
+            let known = self.received.contains_key(&seq);
+            let ok = match rctx {
+                RetCtx::PathRetire => known || seq < self.rpt_max,
+                _ => seq < self.rpt_max,
+            };
+            if !ok {
+                let site = if seq >= self.p_issued.len() as u64 { "unissued" } else { "spurious" };
+                cx.violate(
+                    "retire-frame-count",
+                    site,
+                    format!("RETIRE_CONNECTION_ID for sequence {seq}: largest retire_prior_to seen is {}, received={known}, no path retirement accounts for it", self.rpt_max),
+                );
+            }
+            if !known {
+                cx.probe("probe.retire_of_never_received_seq");
+            }
+            self.retired_emitted.insert(seq);
+            self.r_out.push((seq, cx.step));
+        }
+    }
+
+    /// number of active peer ids by RFC 9000 §5.1.1 after a frame (seq, rpt) has been processed
+    fn active_after(&self, seq: u64, rpt: u64) -> u64 {
+        let floor = self.rpt_max.max(rpt);
+        let mut n = self.received.keys().filter(|s| **s >= floor && **s != seq && !self.retired_emitted.contains(s)).count() as u64;
+        if seq >= floor && !self.retired_emitted.contains(&seq) {
+            n += 1;
+        }
+        n
+    }
+
+    fn peer_active_after(&self, seq: u64, rpt: u64) -> u64 {
+        (rpt..=seq).filter(|s| !self.p_retired_rcvd.contains(s)).count() as u64
+    }
+
+    /// the peer issues its next id (conforming unless `byz`)
+    fn peer_issue(&mut self, cx: &mut Cx, bump: u8, byz: bool) -> bool {
+        if !self.handshaken || self.dead {
+            return false;
+        }
+        let seq = self.p_issued.len() as u64;
+        if seq as usize >= SEQ_BOUND {
+            return false;
+        }
+        let mut rpt = self.p_rpt;
+        match self.rpt_mode {
+            1 => {
+                while rpt < seq && self.p_retired_rcvd.contains(&rpt) {
+                    rpt += 1;
+                }
+            }
+            2 if bump > 0 && seq > rpt => {
+                rpt = rpt + 1 + (bump as u64 - 1) % (seq - rpt);
+            }
+            _ => {}
+        }
+        let after = self.peer_active_after(seq, rpt);
+        if after > self.local_limit {
+            if !byz {
+                return false;
+            }
+            cx.fault("fault.byz_issue_over_limit");
+        }
+        if rpt > self.p_rpt {
+            cx.probe("probe.peer_raised_retire_prior_to");
+        }
+        self.p_rpt = rpt;
+        let cid = peer_cid(self.conn_id, seq, 0);
+        self.p_issued.push(cid);
+        let f = NewConnectionIdFrame::new(cid, VarInt::from_u32(seq as u32), VarInt::from_u32(rpt as u32));
+        self.n_in.push((f, cx.step));
+        cx.th.add(0x21 << 48 | seq << 8 | rpt);
+        true
+    }
+
+    fn deliver_new_cid(&mut self, cx: &mut Cx, f: NewConnectionIdFrame) {
+        let (seq, rpt) = (f.sequence(), f.retire_prior_to());
+        let expect_err = self.active_after(seq, rpt) > self.local_limit;
+        if self.received.contains_key(&seq) {
+            cx.probe("probe.new_cid_duplicate_seen");
+        }
+        if seq < self.rpt_max {
+            cx.probe("probe.new_cid_below_retire_prior_to");
+        }
+        if self.received.keys().next_back().is_some_and(|m| seq > *m + 1) {
+            cx.probe("probe.new_cid_gap");
+        }
+        if rpt < self.rpt_max {
+            cx.probe("probe.stale_retire_prior_to");
+        }
+        // reference model update (RFC 9000 §5.1.2: Retire Prior To only ever grows)
+        if rpt > self.rpt_max {
+            for p in &self.paths {
+                if let Some(c) = p.current {
+                    if c < rpt && c >= self.rpt_max && !p.retired {
+                        if p.state == PState::Borrowed {
+                            cx.probe("probe.retire_prior_to_passed_borrowed_id");
+                        } else {
+                            cx.probe("probe.retire_prior_to_passed_id_in_use");
+                        }
+                    }
+                }
+            }
+            self.rpt_max = rpt;
+        }
+        self.received.insert(seq, *f.connection_id());
+        self.cid2seq.insert(*f.connection_id(), seq);
+
+        let res = self.remote.recv_frame(f);
+        self.pump(cx, None, RetCtx::Generic);
+        cx.th.add(0x22 << 48 | seq << 16 | rpt << 8 | res.is_ok() as u64);
+        match (&res, expect_err) {
+            (Ok(_), false) => cx.progress += 1,
+            (Ok(_), true) => {
+                cx.violate(
+                    "remote-over-limit-accepted",
+                    "",
+                    format!(
+                        "NEW_CONNECTION_ID seq {seq} retire_prior_to {rpt} accepted: {} active ids > active_connection_id_limit {}",
+                        self.active_after(seq, rpt),
+                        self.local_limit
+                    ),
+                );
+                self.dead = true;
+            }
+            (Err(e), true) => {
+                cx.probe("probe.connection_id_limit_error");
+                if e.kind() != ErrorKind::ConnectionIdLimit {
+                    cx.violate("error-kind", "new-cid-over-limit", format!("over-limit NEW_CONNECTION_ID rejected with {}, RFC 9000 §5.1.1 requires CONNECTION_ID_LIMIT_ERROR", kind_name(e.kind())));
+                }
+                self.dead = true;
+            }
+            (Err(e), false) => {
+                cx.violate(
+                    "remote-legal-rejected",
+                    kind_name(e.kind()),
+                    format!(
+                        "NEW_CONNECTION_ID seq {seq} retire_prior_to {rpt} rejected ({e}) although only {} ids are active (limit {}; RETIRE_CONNECTION_ID already sent for {:?})",
+                        self.active_after(seq, rpt),
+                        self.local_limit,
+                        self.retired_emitted.iter().filter(|s| **s >= self.rpt_max).collect::<Vec<_>>()
+                    ),
+                );
+                self.dead = true;
+            }
+        }
+    }
+
+    fn deliver_retire(&mut self, cx: &mut Cx, seq: u64) {
+        let Some(local) = self.local.clone() else { return };
+        let next = self.issued.len() as u64;
+        let (expect_err, expect_new) = if seq >= next {
+            (true, 0)
+        } else if self.issued[seq as usize].1 {
+            (false, 1)
+        } else {
+            cx.probe("probe.retire_duplicate_ignored");
+            (false, 0)
+        };
+        let old = (seq < next).then(|| self.issued[seq as usize]);
+        if !expect_err {
+            self.issued[seq as usize].1 = false;
+        }
+        let res = local.recv_frame(RetireConnectionIdFrame::new(VarInt::from_u32(seq as u32)));
+        drop(local);
+        cx.th.add(0x31 << 48 | seq << 8 | res.is_ok() as u64);
+        match (&res, expect_err) {
+            (Ok(()), false) => {
+                cx.progress += 1;
+                self.pump(cx, Some(expect_new), RetCtx::Generic);
+                if let Some((_, true)) = old {
+                    cx.probe("probe.live_id_retired_by_peer");
+                }
+            }
+            (Ok(()), true) => {
+                self.pump(cx, None, RetCtx::Generic);
+                cx.violate("retire-unissued-accepted", "", format!("RETIRE_CONNECTION_ID for sequence {seq} accepted, only 0..{next} were ever issued"));
+                self.dead = true;
+            }
+            (Err(e), true) => {
+                self.pump(cx, None, RetCtx::Generic);
+                cx.probe("probe.retire_unissued_rejected");
+                if e.kind() != ErrorKind::ProtocolViolation {
+                    cx.violate(
+                        "error-kind",
+                        "retire-unissued",
+                        format!("RETIRE_CONNECTION_ID for never-issued sequence {seq} rejected with {}, RFC 9000 §19.16 requires PROTOCOL_VIOLATION", kind_name(e.kind())),
+                    );
+                }
+                self.dead = true;
+            }
+            (Err(e), false) => {
+                self.pump(cx, None, RetCtx::Generic);
+                cx.violate("retire-issued-rejected", kind_name(e.kind()), format!("RETIRE_CONNECTION_ID for issued sequence {seq} (next {next}) rejected: {e}"));
+                self.dead = true;
+            }
+        }
+    }
+
+    fn new_path(&mut self, cx: &mut Cx) {
+        let cell = self.remote.apply_dcid();
+        self.paths.push(PathActor {
+            borrow: None,
+            wait: None,
+            cell,
+            waker: ArcSendWaker::new(),
+            task: Task::new(),
+            state: PState::Idle,
+            retired: false,
+            current: None,
+        });
+        self.pump(cx, None, RetCtx::Generic);
+    }
+
+    /// judge the id a borrow returned
+    fn judge_borrowed(&mut self, cx: &mut Cx, pi: usize, cid: ConnectionId) {
+        let Some(&seq) = self.cid2seq.get(&cid) else {
+            cx.violate("remote-stale-id", "unknown", format!("path {pi} borrowed {cid}, which the peer never issued"));
+            return;
+        };
+        cx.th.add(0x41 << 48 | (pi as u64) << 16 | seq);
+        if self.retired_emitted.contains(&seq) {
+            cx.violate("remote-stale-id", "retired", format!("path {pi} borrowed the id of sequence {seq} after RETIRE_CONNECTION_ID was sent for it"));
+        }
+        for (qi, q) in self.paths.iter().enumerate() {
+            if qi != pi && !q.retired && q.current == Some(seq) {
+                cx.violate("remote-two-in-use", "shared", format!("paths {qi} and {pi} both use the id of sequence {seq}"));
+            }
+        }
+        let prev = self.paths[pi].current;
+        if let Some(x) = prev {
+            if x != seq {
+                cx.probe("probe.path_switched_id");
+                if !self.retired_emitted.contains(&x) {
+                    cx.violate("remote-two-in-use", "old-not-retired", format!("path {pi} moved from sequence {x} to {seq} without retiring {x}"));
+                }
+            }
+        }
+        self.paths[pi].current = Some(seq);
+    }
+
+    fn path_step(&mut self, cx: &mut Cx, pi: usize, hold: bool) {
+        let st = self.paths[pi].state;
+        match st {
+            PState::Idle => {
+                let p = &mut self.paths[pi];
+                match borrow_static(&p.cell, p.waker.clone()) {
+                    Ok(Some(b)) => {
+                        let cid = *b;
+                        let retired = p.retired;
+                        if hold {
+                            p.borrow = Some(b);
+                            p.state = PState::Borrowed;
+                        } else {
+                            drop(b);
+                        }
+                        cx.progress += 1;
+                        if retired {
+                            cx.violate("remote-stale-id", "retired-path", format!("path {pi} was retired and still borrowed an id"));
+                        } else {
+                            self.judge_borrowed(cx, pi, cid);
+                        }
+                        if !hold {
+                            self.pump(cx, None, RetCtx::Release);
+                        }
+                    }
+                    Ok(None) => {
+                        cx.th.add(0x42 << 48 | pi as u64);
+                        if !p.retired {
+                            cx.violate("remote-stale-id", "none-on-live-path", format!("borrow_cid told live path {pi} that it was retired"));
+                        } else {
+                            cx.probe("probe.borrow_on_retired_path");
+                        }
+                    }
+                    Err(sig) => {
+                        cx.th.add(0x43 << 48 | pi as u64);
+                        cx.probe("probe.borrow_blocked");
+                        let w = p.waker.clone();
+                        p.wait = Some(Box::pin(async move { w.wait_for(sig).await }));
+                        p.state = PState::NeedWait;
+                        let _ = p.task.take_woken();
+                    }
+                }
+            }
+            PState::Borrowed => {
+                let p = &mut self.paths[pi];
+                p.borrow = None;
+                p.state = PState::Idle;
+                cx.th.add(0x44 << 48 | pi as u64);
+                self.pump(cx, None, RetCtx::Release);
+            }
+            PState::NeedWait | PState::Waiting => {
+                let p = &mut self.paths[pi];
+                let woken = p.task.take_woken();
+                let r = p.task.poll_pin(p.wait.as_mut().unwrap().as_mut());
+                cx.th.add(0x45 << 48 | (pi as u64) << 8 | r.is_ready() as u64);
+                match r {
+                    Poll::Ready(()) => {
+                        if st == PState::Waiting && !woken {
+                            cx.violate("lost-wakeup", "ready-without-wake", format!("path {pi}: wait_for(CONNECTION_ID) became ready but the registered waker was never called"));
+                        }
+                        if st == PState::NeedWait {
+                            cx.probe("probe.id_arrived_before_wait_registered");
+                        } else {
+                            cx.probe("probe.waiter_woken");
+                        }
+                        p.wait = None;
+                        p.state = PState::Idle;
+                    }
+                    Poll::Pending => {
+                        if st == PState::Waiting && !woken {
+                            cx.probe("probe.spurious_poll");
+                        }
+                        p.state = PState::Waiting;
+                    }
+                }
+            }
+        }
+    }
+
+    fn path_retire(&mut self, cx: &mut Cx, pi: usize) {
+        let p = &mut self.paths[pi];
+        if p.retired {
+            return;
+        }
+        p.cell.retire();
+        p.retired = true;
+        let cur = p.current;
+        self.pump(cx, None, RetCtx::PathRetire);
+        cx.th.add(0x46 << 48 | pi as u64);
+        if let Some(x) = cur {
+            if !self.retired_emitted.contains(&x) {
+                cx.violate("retire-frame-count", "missing-on-path-retire", format!("path {pi} was retired while using sequence {x}; no RETIRE_CONNECTION_ID for it"));
+            }
+        }
+    }
+}
+
+struct World {
+    router: Arc<QuicRouter>,
+    unrouted: Arc<AtomicU64>,
+    slots: Vec<Option<Conn>>,
+    grave: Vec<Grave>,
+    next_conn_id: u32,
+    probe_task: Task,
+    way: Way,
+}
+
+impl World {
+    fn new(slots: usize) -> Self {
+        let router = Arc::new(QuicRouter::new());
+        let unrouted = Arc::new(AtomicU64::new(0));
+        let u = unrouted.clone();
+        router.on_connectless_packets(move |_p, _w| {
+            u.fetch_add(1, Ordering::SeqCst);
+        });
+        let src: std::net::SocketAddr = "127.0.0.1:4433".parse().unwrap();
+        let dst: std::net::SocketAddr = "127.0.0.1:5544".parse().unwrap();
+        let way: Way = (BindUri::from("inet://127.0.0.1:4433"), Pathway::new(src.into(), dst.into()), Link::new(src, dst));
+        World { router, unrouted, slots: (0..slots).map(|_| None).collect(), grave: Vec::new(), next_conn_id: 1, probe_task: Task::new(), way }
+    }
+
+    /// hand a 1-RTT packet addressed to `cid` to the router; true iff some queue took it
+    fn route(&self, cid: ConnectionId) -> bool {
+        let before = self.unrouted.load(Ordering::SeqCst);
+        let pkt = Packet::Data(DataPacket { header: DataHeader::Short(OneRttHeader::new(SpinBit::default(), cid)), bytes: BytesMut::new(), offset: 0 });
+        let mut fut = std::pin::pin!(self.router.deliver(pkt, self.way.clone()));
+        match self.probe_task.poll_pin(fut.as_mut()) {
+            Poll::Ready(()) => {}
+            Poll::Pending => panic!("QuicRouter::deliver did not complete"),
+        }
+        self.unrouted.load(Ordering::SeqCst) == before
+    }
+
+    fn take_one(&self, q: &RcvdPacketQueue) -> bool {
+        let mut fut = std::pin::pin!(q.one_rtt().recv());
+        matches!(self.probe_task.poll_pin(fut.as_mut()), Poll::Ready(Some(_)))
+    }
+
+    /// which connection's queue holds the packet just delivered (drains it)
+    fn find_taker(&self) -> Option<u32> {
+        for c in self.slots.iter().flatten() {
+            if self.take_one(&c.queue) {
+                return Some(c.conn_id);
+            }
+        }
+        for g in &self.grave {
+            if self.take_one(&g.queue) {
+                return Some(g.conn_id);
+            }
+        }
+        None
+    }
+
+    /// `owner`: connection and its queue that must receive packets for `cid`, or `None` and the reason it must miss
+    fn check_route(&self, cx: &mut Cx, cid: ConnectionId, owner: Result<(u32, &Arc<RcvdPacketQueue>), &'static str>, what: &str) {
+        let routed = self.route(cid);
+        match owner {
+            Ok((conn_id, q)) => {
+                cx.probe("probe.route_hit_checked");
+                if !routed {
+                    cx.violate("route-wrong-conn", "live-id-unroutable", format!("{what} of connection #{conn_id} is live but the router has no entry for it"));
+                } else if !self.take_one(q) {
+                    let taker = self.find_taker();
+                    cx.violate("route-wrong-conn", "other-conn", format!("{what} of connection #{conn_id} was routed to {taker:?}"));
+                }
+            }
+            Err(why) => {
+                cx.probe("probe.route_miss_checked");
+                if routed {
+                    let taker = self.find_taker();
+                    cx.violate("route-after-retire", why, format!("{what} is still routed (to connection {taker:?}) although: {why}"));
+                }
+            }
+        }
+    }
+
+    fn odcid_owner(&self, odcid: &ConnectionId) -> Option<&Conn> {
+        self.slots.iter().flatten().find(|c| c.odcid.as_ref() == Some(odcid))
+    }
+
+    fn audit_conn_ids(&self, cx: &mut Cx, c: &Conn, only: Option<&[u64]>) {
+        for (seq, (cid, live)) in c.issued.iter().enumerate() {
+            if only.is_some_and(|o| !o.contains(&(seq as u64))) {
+                continue;
+            }
+            let owner = if c.cleared {
+                Err("cleared")
+            } else if *live {
+                Ok((c.conn_id, &c.queue))
+            } else {
+                Err("retired")
+            };
+            self.check_route(cx, *cid, owner, &format!("id seq {seq}"));
+        }
+    }
+
+    fn audit_all(&self, cx: &mut Cx) {
+        for c in self.slots.iter().flatten() {
+            self.audit_conn_ids(cx, c, None);
+            if let Some(od) = &c.odcid {
+                self.check_route(cx, *od, Ok((c.conn_id, &c.queue)), "original dcid");
+            }
+        }
+        for g in &self.grave {
+            for cid in &g.ids {
+                self.check_route(cx, *cid, Err("connection-dropped"), &format!("an id of dropped connection #{}", g.conn_id));
+            }
+            if let Some(od) = &g.odcid {
+                match self.odcid_owner(od) {
+                    Some(c) => self.check_route(cx, *od, Ok((c.conn_id, &c.queue)), "reused original dcid"),
+                    None => self.check_route(cx, *od, Err("connection-dropped"), &format!("original dcid of dropped connection #{}", g.conn_id)),
+                }
+            }
+        }
+    }
+
+    #[allow(clippy::too_many_arguments)]
+    fn create(&mut self, cx: &mut Cx, slot: usize, server: bool, local_limit: u8, peer_limit: u8, odcid: u8, paths: u8, rpt_mode: u8, auto_replace: bool) {
+        let odcid = server.then(|| odcid_of(odcid % 3));
+        if let Some(od) = &odcid {
+            if self.odcid_owner(od).is_some() {
+                // a packet with this dcid would be routed to the live connection; the server creates none
+                return;
+            }
+            if self.grave.iter().any(|g| g.odcid.as_ref() == Some(od)) {
+                cx.probe("probe.odcid_reused_after_drop");
+            }
+        }
+        let conn_id = self.next_conn_id;
+        self.next_conn_id += 1;
+        // ConnectionFoundation::with_cids
+        let queue = Arc::new(RcvdPacketQueue::new());
+        let sink = Sink::default();
+        let registry = self.router.registry_on_issuing_scid(queue.clone(), sink.clone());
+        let initial_scid = registry.gen_unique_cid();
+        let odcid_entry = odcid.map(|od| self.router.insert(od.into(), queue.clone()));
+        // PendingConnection::run
+        let local = ArcLocalCids::new(initial_scid, registry);
+        let remote = ArcRemoteCids::new(local_limit as u64, sink.clone());
+        let mut c = Conn {
+            paths: Vec::new(),
+            remote,
+            local2: Some(local.clone()),
+            local: Some(local),
+            odcid_entry,
+            queue,
+            sink,
+            conn_id,
+            odcid,
+            local_limit: local_limit as u64,
+            peer_limit: peer_limit as u64,
+            rpt_mode: rpt_mode % 3,
+            auto_replace,
+            handshaken: false,
+            limit_set: false,
+            cleared: false,
+            dead: false,
+            issued: vec![(initial_scid, true)],
+            n_in: Vec::new(),
+            r_in: Vec::new(),
+            n_out: Vec::new(),
+            r_out: Vec::new(),
+            peer_known: BTreeSet::new(),
+            peer_retired_sent: BTreeSet::new(),
+            p_issued: Vec::new(),
+            p_rpt: 0,
+            p_retired_rcvd: BTreeSet::new(),
+            received: BTreeMap::new(),
+            cid2seq: HashMap::new(),
+            rpt_max: 0,
+            retired_emitted: BTreeSet::new(),
+        };
+        c.pump(cx, None, RetCtx::Generic);
+        for _ in 0..paths.clamp(1, 3) {
+            c.new_path(cx);
+        }
+        cx.th.add(0x01 << 48 | (slot as u64) << 32 | (server as u64) << 24 | (local_limit as u64) << 16 | (peer_limit as u64) << 8 | c.issued.len() as u64);
+        self.audit_conn_ids(cx, &c, None);
+        if let Some(od) = &c.odcid {
+            self.check_route(cx, *od, Ok((c.conn_id, &c.queue)), "original dcid");
+        }
+        self.slots[slot] = Some(c);
+        cx.progress += 1;
+    }
+
+    fn drop_conn(&mut self, cx: &mut Cx, slot: usize) {
+        let Some(c) = self.slots[slot].take() else { return };
+        cx.fault("fault.connection_dropped");
+        if c.paths.iter().any(|p| p.state == PState::Borrowed) {
+            cx.probe("probe.dropped_with_borrow_outstanding");
+        }
+        if !c.n_in.is_empty() || !c.r_in.is_empty() {
+            cx.probe("probe.dropped_with_frames_in_flight");
+        }
+        let Conn { paths, remote, local, local2, odcid_entry, queue, sink, conn_id, odcid, issued, .. } = c;
+        drop(paths);
+        drop(remote);
+        drop(local);
+        drop(local2);
+        drop(odcid_entry);
+        drop(sink);
+        self.grave.push(Grave { conn_id, ids: issued.iter().map(|(c, _)| *c).collect(), odcid, queue });
+        cx.th.add(0x02 << 48 | slot as u64);
+        self.audit_all(cx);
+    }
+}
+
+fn op_slot(o: &Op) -> Option<u8> {
+    match o {
+        Op::Create { slot, .. }
+        | Op::Handshake { slot, .. }
+        | Op::SetLimit { slot }
+        | Op::PeerIssue { slot, .. }
+        | Op::DeliverNewCid { slot, .. }
+        | Op::PeerRecvRetire { slot, .. }
+        | Op::PeerRecvNewCid { slot, .. }
+        | Op::PeerRetire { slot, .. }
+        | Op::DeliverRetire { slot, .. }
+        | Op::NewPath { slot }
+        | Op::PathStep { slot, .. }
+        | Op::PathRetire { slot, .. }
+        | Op::ConflictCid { slot, .. }
+        | Op::ClearLocal { slot }
+        | Op::Drop { slot } => Some(*slot),
+        Op::RouteAudit => None,
+    }
+}
+
+fn op_kind(o: &Op) -> u8 {
+    match o {
+        Op::Create { .. } => 0,
+        Op::Handshake { .. } => 1,
+        Op::SetLimit { .. } => 2,
+        Op::PeerIssue { .. } => 3,
+        Op::DeliverNewCid { .. } => 4,
+        Op::PeerRecvRetire { .. } => 5,
+        Op::PeerRecvNewCid { .. } => 6,
+        Op::PeerRetire { .. } => 7,
+        Op::DeliverRetire { .. } => 8,
+        Op::NewPath { .. } => 9,
+        Op::PathStep { .. } => 10,
+        Op::PathRetire { .. } => 11,
+        Op::ConflictCid { .. } => 12,
+        Op::ClearLocal { .. } => 13,
+        Op::Drop { .. } => 14,
+        Op::RouteAudit => 15,
+    }
+}
+
+fn sel<T>(v: &[T], idx: u8) -> Option<usize> {
+    if v.is_empty() { None } else { Some(idx as usize % v.len()) }
+}
+
+fn take_item<T: Copy>(cx: &mut Cx, ch: &mut Vec<(T, u64)>, idx: u8, dup: bool) -> Option<T> {
+    let i = sel(ch, idx)?;
+    if i != 0 {
+        cx.fault("fault.reorder");
+    }
+    let (item, at) = ch[i];
+    if cx.step.saturating_sub(at) >= 12 {
+        cx.fault("fault.delayed_frame");
+    }
+    if dup {
+        cx.fault("fault.duplicate");
+    } else {
+        ch.remove(i);
+    }
+    Some(item)
+}
+
+impl World {
+    fn apply(&mut self, cx: &mut Cx, op: &Op) {
+        let nslots = self.slots.len();
+        match *op {
+            Op::Create { slot, server, local_limit, peer_limit, odcid, paths, rpt_mode, auto_replace } => {
+                let s = slot as usize % nslots;
+                if self.slots[s].is_none() {
+                    self.create(cx, s, server, local_limit.clamp(2, 8), peer_limit.clamp(2, 8), odcid, paths, rpt_mode, auto_replace);
+                }
+            }
+            Op::Drop { slot } => self.drop_conn(cx, slot as usize % nslots),
+            Op::RouteAudit => {
+                cx.th.add(0x03 << 48);
+                self.audit_all(cx)
+            }
+            Op::ClearLocal { slot } => {
+                let s = slot as usize % nslots;
+                let Some(c) = self.slots[s].as_mut() else { return };
+                if c.cleared {
+                    return;
+                }
+                cx.fault("fault.cleared_before_drop");
+                c.local.as_ref().unwrap().clear();
+                c.cleared = true;
+                c.pump(cx, None, RetCtx::Generic);
+                c.dead = true;
+                cx.th.add(0x04 << 48 | s as u64);
+                self.audit_all(cx);
+            }
+            Op::Handshake { slot, path } => {
+                let Some(c) = self.slots[slot as usize % nslots].as_mut() else { return };
+                handshake(cx, c, path);
+            }
+            Op::SetLimit { slot } => {
+                let s = slot as usize % nslots;
+                let Some(c) = self.slots[s].as_mut() else { return };
+                if set_limit(cx, c) {
+                    let c = self.slots[s].as_ref().unwrap();
+                    self.audit_conn_ids(cx, c, None);
+                }
+            }
+            Op::PeerIssue { slot, bump, byz } => {
+                let Some(c) = self.slots[slot as usize % nslots].as_mut() else { return };
+                c.peer_issue(cx, bump, byz);
+            }
+            Op::DeliverNewCid { slot, idx, dup } => {
+                let Some(c) = self.slots[slot as usize % nslots].as_mut() else { return };
+                if c.dead {
+                    return;
+                }
+                if let Some(f) = take_item(cx, &mut c.n_in, idx, dup) {
+                    c.deliver_new_cid(cx, f);
+                }
+            }
+            Op::PeerRecvRetire { slot, idx, dup } => {
+                let Some(c) = self.slots[slot as usize % nslots].as_mut() else { return };
+                if c.dead {
+                    return;
+                }
+                if let Some(seq) = take_item(cx, &mut c.r_out, idx, dup) {
+                    peer_recv_retire(cx, c, seq, c.auto_replace);
+                }
+            }
+            Op::PeerRecvNewCid { slot, idx, dup } => {
+                let Some(c) = self.slots[slot as usize % nslots].as_mut() else { return };
+                if c.dead {
+                    return;
+                }
+                if let Some(f) = take_item(cx, &mut c.n_out, idx, dup) {
+                    peer_recv_new_cid(cx, c, f);
+                }
+            }
+            Op::PeerRetire { slot, sel: which, byz } => {
+                let Some(c) = self.slots[slot as usize % nslots].as_mut() else { return };
+                if c.dead || !c.limit_set || !c.handshaken || c.issued.len() + c.r_in.len() >= SEQ_BOUND {
+                    return;
+                }
+                if byz > 0 {
+                    let seq = c.issued.len() as u64 + (byz as u64 - 1) % 4;
+                    cx.fault("fault.byz_retire_unissued");
+                    c.r_in.push((seq, cx.step));
+                    cx.th.add(0x32 << 48 | seq);
+                } else {
+                    let cand: Vec<u64> = c.peer_known.iter().copied().filter(|s| !c.peer_retired_sent.contains(s)).collect();
+                    if let Some(i) = sel(&cand, which) {
+                        let seq = cand[i];
+                        c.peer_retired_sent.insert(seq);
+                        c.r_in.push((seq, cx.step));
+                        cx.th.add(0x33 << 48 | seq);
+                    }
+                }
+            }
+            Op::DeliverRetire { slot, idx, dup } => {
+                let s = slot as usize % nslots;
+                let Some(c) = self.slots[s].as_mut() else { return };
+                if c.dead {
+                    return;
+                }
+                if let Some(seq) = take_item(cx, &mut c.r_in, idx, dup) {
+                    let before = c.issued.len() as u64;
+                    c.deliver_retire(cx, seq);
+                    let c = self.slots[s].as_ref().unwrap();
+                    let mut touched: Vec<u64> = (before..c.issued.len() as u64).collect();
+                    if seq < before {
+                        touched.push(seq);
+                    }
+                    self.audit_conn_ids(cx, c, Some(&touched));
+                }
+            }
+            Op::NewPath { slot } => {
+                let Some(c) = self.slots[slot as usize % nslots].as_mut() else { return };
+                if c.dead || c.paths.len() >= MAX_PATHS {
+                    return;
+                }
+                c.new_path(cx);
+                cx.th.add(0x47 << 48 | c.paths.len() as u64);
+            }
+            Op::PathStep { slot, path, hold } => {
+                let Some(c) = self.slots[slot as usize % nslots].as_mut() else { return };
+                if c.dead {
+                    return;
+                }
+                if let Some(pi) = sel(&c.paths, path) {
+                    c.path_step(cx, pi, hold);
+                }
+            }
+            Op::PathRetire { slot, path } => {
+                let Some(c) = self.slots[slot as usize % nslots].as_mut() else { return };
+                if c.dead {
+                    return;
+                }
+                if let Some(pi) = sel(&c.paths, path) {
+                    if !c.paths[pi].retired {
+                        // before the handshake the initial path must stay: apply_initial_dcid needs a pending cell
+                        if !c.handshaken && c.live_paths() <= 1 {
+                            return;
+                        }
+                        cx.fault("fault.path_retired");
+                        c.path_retire(cx, pi);
+                    }
+                }
+            }
+            Op::ConflictCid { slot, sel: which } => {
+                let Some(c) = self.slots[slot as usize % nslots].as_mut() else { return };
+                if c.dead || !c.handshaken {
+                    return;
+                }
+                let known: Vec<u64> = c.received.keys().copied().filter(|s| *s >= c.rpt_max).collect();
+                if let Some(i) = sel(&known, which) {
+                    let seq = known[i];
+                    cx.fault("fault.byz_seq_reused_for_other_cid");
+                    let f = NewConnectionIdFrame::new(peer_cid(c.conn_id, seq, 1), VarInt::from_u32(seq as u32), VarInt::from_u32(c.rpt_max.min(seq) as u32));
+                    // RFC 9000 §19.15: MAY be treated as PROTOCOL_VIOLATION; either outcome is legal, only a panic is not
+                    let r = c.remote.recv_frame(f);
+                    cx.th.add(0x23 << 48 | seq << 8 | r.is_ok() as u64);
+                    if r.is_err() {
+                        cx.probe("probe.conflicting_cid_rejected");
+                    } else {
+                        cx.probe("probe.conflicting_cid_accepted");
+                    }
+                    c.dead = true;
+                    c.pump(cx, None, RetCtx::Generic);
+                }
+            }
+        }
+    }
+}
+
+fn handshake(cx: &mut Cx, c: &mut Conn, path: u8) -> bool {
+    if c.handshaken || c.dead {
+        return false;
+    }
+    let live: Vec<usize> = (0..c.paths.len()).filter(|i| !c.paths[*i].retired).collect();
+    let pi = match sel(&live, path) {
+        Some(i) => live[i],
+        None => {
+            c.new_path(cx);
+            c.paths.len() - 1
+        }
+    };
+    let scid0 = peer_cid(c.conn_id, 0, 0);
+    c.p_issued.push(scid0);
+    c.received.insert(0, scid0);
+    c.cid2seq.insert(scid0, 0);
+    // the peer learnt our initial scid from the same flight
+    c.peer_known.insert(0);
+    c.remote.apply_initial_dcid(scid0, &c.paths[pi].cell);
+    c.handshaken = true;
+    c.pump(cx, None, RetCtx::Generic);
+    cx.th.add(0x05 << 48 | pi as u64);
+    cx.progress += 1;
+    true
+}
+
+fn set_limit(cx: &mut Cx, c: &mut Conn) -> bool {
+    if c.limit_set || c.dead || !c.handshaken {
+        return false;
+    }
+    let r = c.local.as_ref().unwrap().set_limit(c.peer_limit);
+    c.limit_set = true;
+    c.pump(cx, None, RetCtx::Generic);
+    cx.th.add(0x06 << 48 | c.issued.len() as u64);
+    if let Err(e) = r {
+        cx.violate("retire-issued-rejected", "set-limit", format!("set_limit({}) failed: {e}", c.peer_limit));
+        c.dead = true;
+    }
+    true
+}
+
+fn peer_recv_retire(cx: &mut Cx, c: &mut Conn, seq: u64, replace: bool) {
+    c.p_retired_rcvd.insert(seq);
+    cx.th.add(0x24 << 48 | seq);
+    if replace {
+        c.peer_issue(cx, 0, false);
+    }
+}
+
+fn peer_recv_new_cid(cx: &mut Cx, c: &mut Conn, f: NewConnectionIdFrame) {
+    c.peer_known.insert(f.sequence());
+    cx.th.add(0x34 << 48 | f.sequence());
+    // a conforming peer retires what Retire Prior To asks for
+    let rpt = f.retire_prior_to();
+    let todo: Vec<u64> = c.peer_known.iter().copied().filter(|s| *s < rpt && !c.peer_retired_sent.contains(s)).collect();
+    for s in todo {
+        c.peer_retired_sent.insert(s);
+        c.r_in.push((s, cx.step));
+        cx.probe("probe.peer_retired_on_our_retire_prior_to");
+    }
+}
+
+/// Let everything in flight arrive, let the conforming peer replace what was retired, let every path run until
+/// it is blocked or has an id; then audit.
+fn settle(w: &mut World, cx: &mut Cx) {
+    let n = w.slots.len();
+    for s in 0..n {
+        let Some(c) = w.slots[s].as_mut() else { continue };
+        if c.dead {
+            continue;
+        }
+        handshake(cx, c, 0);
+        set_limit(cx, c);
+        // drop every outstanding borrow
+        for pi in 0..c.paths.len() {
+            if c.paths[pi].state == PState::Borrowed {
+                c.path_step(cx, pi, false);
+            }
+        }
+        let mut rounds = 0;
+        loop {
+            rounds += 1;
+            if rounds > 200 {
+                cx.violate("no-progress", "settle", format!("connection in slot {s} does not quiesce: frames keep being produced"));
+                break;
+            }
+            let mut moved = false;
+            while !c.dead && !c.n_out.is_empty() {
+                let (f, _) = c.n_out.remove(0);
+                peer_recv_new_cid(cx, c, f);
+                moved = true;
+            }
+            while !c.dead && !c.r_out.is_empty() {
+                let (seq, _) = c.r_out.remove(0);
+                peer_recv_retire(cx, c, seq, false);
+                moved = true;
+            }
+            // conforming peer keeps us supplied up to our limit
+            while !c.dead && c.peer_issue(cx, 0, false) {
+                moved = true;
+            }
+            while !c.dead && !c.n_in.is_empty() {
+                let (f, _) = c.n_in.remove(0);
+                c.deliver_new_cid(cx, f);
+                moved = true;
+            }
+            while !c.dead && !c.r_in.is_empty() {
+                let (seq, _) = c.r_in.remove(0);
+                c.deliver_retire(cx, seq);
+                moved = true;
+            }
+            if c.dead {
+                break;
+            }
+            // paths: whoever was woken polls; whoever is idle sends once
+            for pi in 0..c.paths.len() {
+                match c.paths[pi].state {
+                    PState::Idle => {
+                        c.path_step(cx, pi, false);
+                        if c.paths[pi].state == PState::NeedWait {
+                            c.path_step(cx, pi, false);
+                        }
+                    }
+                    PState::NeedWait => c.path_step(cx, pi, false),
+                    PState::Waiting => {
+                        if c.paths[pi].task.is_woken() {
+                            c.path_step(cx, pi, false);
+                            moved = true;
+                        }
+                    }
+                    PState::Borrowed => unreachable!(),
+                }
+            }
+            if !moved && c.n_out.is_empty() && c.r_out.is_empty() {
+                break;
+            }
+        }
+        if c.dead {
+            continue;
+        }
+        // ---- quiescence audits, remote side ---------------------------------------------------------
+        let live_paths = c.live_paths() as u64;
+        let supplied = live_paths <= c.local_limit && (c.p_issued.len() < SEQ_BOUND);
+        if !supplied {
+            cx.probe("probe.more_paths_than_ids_at_end");
+        }
+        for pi in 0..c.paths.len() {
+            if c.paths[pi].retired {
+                continue;
+            }
+            let blocked = matches!(c.paths[pi].state, PState::Waiting | PState::NeedWait);
+            if blocked {
+                // audit poll: would the sleeper get an id if it looked again?
+                let woken = c.paths[pi].task.is_woken();
+                let p = &mut c.paths[pi];
+                let got = match borrow_static(&p.cell, p.waker.clone()) {
+                    Ok(Some(b)) => Some(*b),
+                    _ => None,
+                };
+                if let Some(cid) = got {
+                    if !woken {
+                        cx.violate("lost-wakeup", "borrow_cid", format!("path {pi} sleeps on CONNECTION_ID although borrow_cid now yields {cid}"));
+                    }
+                    c.pump(cx, None, RetCtx::Release);
+                } else if supplied {
+                    cx.violate(
+                        "waiter-starved",
+                        "",
+                        format!("at quiescence path {pi} still has no id although {live_paths} live paths <= limit {} and the peer keeps {} ids active", c.local_limit, c.local_limit),
+                    );
+                } else {
+                    cx.probe("probe.path_starved_at_end");
+                }
+            } else if let Some(x) = c.paths[pi].current {
+                // the path has an id: it must be one the peer still wants us to use
+                if x < c.rpt_max && supplied {
+                    cx.violate("remote-stale-id", "below-retire-prior-to", format!("at quiescence path {pi} still uses sequence {x}, retire_prior_to is {}", c.rpt_max));
+                }
+            }
+        }
+        if supplied {
+            let missing: Vec<u64> = (0..c.rpt_max).filter(|s| !c.retired_emitted.contains(s)).collect();
+            if !missing.is_empty() {
+                cx.violate("retire-frame-count", "missing", format!("at quiescence no RETIRE_CONNECTION_ID was ever sent for sequences {missing:?} (retire_prior_to {})", c.rpt_max));
+            }
+        }
+    }
+    w.audit_all(cx);
+}
+
+fn run(case: &Case) -> Outcome {
+    let mut w = World::new(case.slots.clamp(1, 3) as usize);
+    let mut cx = Cx { out: Outcome::default(), th: TraceHash::default(), step: 0, faults: 0, progress: 0 };
+    for (i, op) in case.ops.iter().enumerate() {
+        cx.step = i as u64;
+        w.apply(&mut cx, op);
+        if cx.out.failed() {
+            break;
+        }
+    }
+    if !cx.out.failed() {
+        cx.step = case.ops.len() as u64;
+        settle(&mut w, &mut cx);
+    }
+    let Cx { mut out, th, faults, progress, .. } = cx;
+    for sig in out.violations.iter().map(|v| v.signature()).collect::<Vec<_>>() {
+        out.stats.bump(simcore::engine::intern(&format!("violating_runs.{sig}")));
+    }
+    out.trace_hash = th.get();
+    out.nontrivial = faults > 0 && progress > 2;
+    out
+}
+
+impl Engine for CidSim {
+    type Case = Case;
+
+    fn name(&self) -> &'static str {
+        "cidsim"
+    }
+
+    fn fresh_thread(&self) -> bool {
+        // connection ids come from rand's thread-local generator, which is seeded once per thread
+        true
+    }
+
+    fn components_real(&self) -> Vec<&'static str> {
+        vec![
+            "qbase::cid::ArcLocalCids",
+            "qbase::cid::ArcRemoteCids",
+            "qbase::cid::ArcCidCell / BorrowedCid",
+            "qbase::net::tx::ArcSendWaker",
+            "qinterface::component::route::QuicRouter",
+            "qinterface::component::route::QuicRouterRegistry",
+            "qinterface::component::route::QuicRouterEntry",
+            "qinterface::component::route::RcvdPacketQueue",
+        ]
+    }
+
+    fn components_stub(&self) -> Vec<&'static str> {
+        vec!["frame transport (four channels per connection with reorder/duplicate/delay)", "the peer endpoint (reference model)", "connections (bundles of the real parts)"]
+    }
+
+    fn generate(&self, _index: u64, seed: u64, tier: Tier) -> Case {
+        let mut r = Rng::derive(seed, "workload");
+        let mut f = Rng::derive(seed, "faults");
+        let slots = r.range(1, 3) as u8;
+        let long = r.one_in(5);
+        let scale = if tier == Tier::Thorough { 2 } else { 1 };
+        let nops = r.range(12, if long { 320 } else { 110 }) * scale;
+        // swarm: each fault kind on or off per run
+        let p_reorder = if f.one_in(2) { 0.1 + f.f64() * 0.6 } else { 0.0 };
+        let p_dup = if f.one_in(2) { f.f64() * 0.35 } else { 0.0 };
+        let byz_retire = f.one_in(5);
+        let byz_issue = f.one_in(5);
+        let conflict = f.one_in(10);
+        let w_path_retire = if f.one_in(2) { f.range(1, 4) } else { 0 };
+        let w_drop = if f.one_in(2) { f.range(1, 2) } else { 0 };
+        let clear = f.one_in(4);
+        let lazy = f.one_in(4); // deliveries are rare: long delays, deep channels
+        let w_issue = r.range(2, 7);
+        let w_dnew = if lazy { 2 } else { r.range(5, 12) };
+        let w_step = r.range(6, 16);
+        let w_newpath = r.range(0, 3);
+        let w_prr = if lazy { 2 } else { r.range(3, 10) };
+        let w_prn = if lazy { 1 } else { r.range(2, 7) };
+        let w_pret = r.range(1, 7);
+        let w_dret = if lazy { 2 } else { r.range(3, 10) };
+        let w_audit = 1;
+        let total = w_issue + w_dnew + w_step + w_newpath + w_prr + w_prn + w_pret + w_dret + w_audit + w_path_retire + w_drop;
+        let limit = |r: &mut Rng| match r.below(8) {
+            0 | 1 => 2,
+            2 => 3,
+            3 => 8,
+            _ => r.range(2, 8),
+        } as u8;
+        let idx = |f: &mut Rng| if f.chance(p_reorder) { f.below(16) as u8 } else { 0 };
+        let mut occupied = vec![false; slots as usize];
+        let mut scheduled: Vec<(usize, Op)> = Vec::new();
+        let mut ops: Vec<Op> = Vec::new();
+        while (ops.len() as u64) < nops {
+            let now = ops.len();
+            if let Some(p) = scheduled.iter().position(|(at, _)| *at <= now) {
+                ops.push(scheduled.remove(p).1);
+                continue;
+            }
+            let free: Vec<usize> = (0..slots as usize).filter(|s| !occupied[*s]).collect();
+            let any = occupied.iter().any(|o| *o);
+            if !free.is_empty() && (!any || r.one_in(8)) {
+                let slot = *r.pick(&free) as u8;
+                occupied[slot as usize] = true;
+                ops.push(Op::Create {
+                    slot,
+                    server: r.one_in(2),
+                    local_limit: limit(&mut r),
+                    peer_limit: limit(&mut r),
+                    odcid: r.below(3) as u8,
+                    paths: if r.one_in(4) { r.range(2, 3) as u8 } else { 1 },
+                    rpt_mode: *r.pick(&[0u8, 1, 1, 2, 2, 2]),
+                    auto_replace: r.chance(0.7),
+                });
+                let hs = now + 1 + r.usize_below(5);
+                scheduled.push((hs, Op::Handshake { slot, path: r.below(4) as u8 }));
+                scheduled.push((hs + 1 + r.usize_below(5), Op::SetLimit { slot }));
+                continue;
+            }
+            let occ: Vec<usize> = (0..slots as usize).filter(|s| occupied[*s]).collect();
+            let slot = if r.one_in(12) { r.below(slots as u64) as u8 } else { *r.pick(&occ) as u8 };
+            if byz_retire && f.one_in(60) {
+                ops.push(Op::PeerRetire { slot, sel: 0, byz: f.range(1, 4) as u8 });
+                continue;
+            }
+            if byz_issue && f.one_in(40) {
+                ops.push(Op::PeerIssue { slot, bump: 0, byz: true });
+                continue;
+            }
+            if conflict && f.one_in(80) {
+                ops.push(Op::ConflictCid { slot, sel: f.below(8) as u8 });
+                continue;
+            }
+            if clear && f.one_in(120) {
+                ops.push(Op::ClearLocal { slot });
+                continue;
+            }
+            let mut x = r.below(total);
+            let mut take = |w: u64| {
+                if x < w {
+                    true
+                } else {
+                    x -= w;
+                    false
+                }
+            };
+            let op = if take(w_issue) {
+                Op::PeerIssue { slot, bump: if r.one_in(3) { r.range(1, 64) as u8 } else { 0 }, byz: false }
+            } else if take(w_dnew) {
+                Op::DeliverNewCid { slot, idx: idx(&mut f), dup: f.chance(p_dup) }
+            } else if take(w_step) {
+                Op::PathStep { slot, path: r.below(MAX_PATHS as u64) as u8, hold: r.one_in(3) }
+            } else if take(w_newpath) {
+                Op::NewPath { slot }
+            } else if take(w_prr) {
+                Op::PeerRecvRetire { slot, idx: idx(&mut f), dup: f.chance(p_dup) }
+            } else if take(w_prn) {
+                Op::PeerRecvNewCid { slot, idx: idx(&mut f), dup: f.chance(p_dup) }
+            } else if take(w_pret) {
+                Op::PeerRetire { slot, sel: r.below(16) as u8, byz: 0 }
+            } else if take(w_dret) {
+                Op::DeliverRetire { slot, idx: idx(&mut f), dup: f.chance(p_dup) }
+            } else if take(w_audit) {
+                Op::RouteAudit
+            } else if take(w_path_retire) {
+                Op::PathRetire { slot, path: r.below(MAX_PATHS as u64) as u8 }
+            } else {
+                occupied[slot as usize] = false;
+                scheduled.retain(|(_, o)| !matches!(o, Op::Handshake { slot: s, .. } | Op::SetLimit { slot: s } if *s == slot));
+                Op::Drop { slot }
+            };
+            ops.push(op);
+        }
+        Case { slots, ops }
+    }
+
+    fn execute(&self, case: &Case) -> Outcome {
+        run(case)
+    }
+
+    fn shrink(&self, case: &Case) -> Vec<Case> {
+        let mut v = Vec::new();
+        let n = case.ops.len();
+        if n > 1 {
+            v.push(Case { ops: case.ops[..n / 2].to_vec(), ..case.clone() });
+            v.push(Case { ops: case.ops[..n - 1].to_vec(), ..case.clone() });
+        }
+        // one connection slot at a time, one op kind at a time
+        for keep in 0..case.slots {
+            let ops: Vec<Op> = case.ops.iter().filter(|o| op_slot(o).is_none_or(|s| s % case.slots.max(1) == keep)).cloned().collect();
+            if ops.len() < n {
+                v.push(Case { ops, ..case.clone() });
+            }
+        }
+        for kind in 0..16u8 {
+            let ops: Vec<Op> = case.ops.iter().filter(|o| op_kind(o) != kind).cloned().collect();
+            if ops.len() < n && kind != 0 {
+                v.push(Case { ops, ..case.clone() });
+            }
+        }
+        // chunks, then single ops
+        let mut chunk = n / 4;
+        while chunk >= 2 {
+            let mut start = 0;
+            while start + chunk <= n {
+                let mut ops = case.ops.clone();
+                ops.drain(start..start + chunk);
+                v.push(Case { ops, ..case.clone() });
+                start += chunk;
+            }
+            chunk /= 2;
+        }
+        for i in (0..n).rev().take(200) {
+            let mut ops = case.ops.clone();
+            ops.remove(i);
+            v.push(Case { ops, ..case.clone() });
+        }
+        for i in 0..n.min(200) {
+            let mut ops = case.ops.clone();
+            let changed = match &mut ops[i] {
+                Op::DeliverNewCid { idx, dup, .. } | Op::DeliverRetire { idx, dup, .. } | Op::PeerRecvRetire { idx, dup, .. } | Op::PeerRecvNewCid { idx, dup, .. }
+                    if *idx != 0 || *dup =>
+                {
+                    *idx = 0;
+                    *dup = false;
+                    true
+                }
+                Op::PathStep { hold, .. } if *hold => {
+                    *hold = false;
+                    true
+                }
+                Op::Create { paths, .. } if *paths > 1 => {
+                    *paths = 1;
+                    true
+                }
+                Op::PeerIssue { bump, .. } if *bump > 1 => {
+                    *bump = 1;
+                    true
+                }
+                _ => false,
+            };
+            if changed {
+                v.push(Case { ops, ..case.clone() });
+            }
+        }
+        if case.slots > 1 {
+            v.push(Case { slots: case.slots - 1, ops: case.ops.clone() });
+        }
+        v
+    }
+}
